@@ -369,6 +369,7 @@ package ast
 // and the list that is merged is that sorted list.
 //@ ghost var sortedIncl []*Include scratch
 //@ ghost var nameRe ref scratch
+//@ ghost var nsJoined string scratch
 //@ ghost var pendingMerges int scratch
 //@ func (*TaskfileGraph).Merge$2
 //@   site slices.SortStableFunc#1 ghost sortedIncl := arg0
@@ -405,6 +406,14 @@ package ast
 // the mark survives every merge unchanged (no namespace is ever put in front of it), and is removed from the
 // references of the merged root Taskfile once, after the last merge (TaskfileGraph.Merge$3)
 //@ func taskNameWithNamespace
+// ... and every other name gets the namespace put in front, exactly once per merge, whatever the name looks like - a
+// name that happens to start with "<namespace>:" already (a task "test:unit" included as "test", an include nested
+// under one of the same name) is no exception: it is a LOCAL name, and its qualified form has the prefix twice
+//@   site strings.HasPrefix#0 requires arg0 == taskName && arg1 == ":"                                                [C08,C15]
+//@   init nsJoined := ""
+//@   site fmt.Sprintf#1 ghost nsJoined := result
+//@   site fmt.Sprintf#0 requires arg0 == "%s%s%s"                                                                     [C08,C15]
+//@   ensures !strHasPrefix(taskName, ":") ==> result == nsJoined                                                      [C08,C15]
 //@   ensures strHasPrefix(taskName, ":") ==> result == taskName                                                         [C08]
 //@   nosite strings.TrimLeft                                                                                            [C08]
 //@   nosite strings.TrimLeftFunc                                                                                        [C08]
